@@ -295,6 +295,17 @@ def check(ctx):
         ctx.check(bool(polls) and w is None, "C08.e", "runner:polls-after-every-run", R.loc(runs[0]) if runs else "",
                   "every path from callback.run to return passes the removal/despawn poll", "a run path of the runner returns without polling removals and despawns",
                   lib.render_path(R, w) if w else None)
+        # the entry pass: before the target's callback is looked up, entities released so far are collected and removals /
+        # despawns detected so far are scheduled - on every path, at every depth (a nested run's commands are applied inside
+        # its parent's callback, so no exit pass has happened between a despawn it made and the next command it queued)
+        takes = lib.call_blocks(R, lib.ends(A.names(prog)["storage_take"]))
+        gcs = lib.call_blocks(R, lambda n: n.endswith(A.TABLE["gc"]))
+        ok_entry = bool(takes) and all(any(R.dominates(p_, tk) for p_ in lib.call_blocks(R, lambda n: n == poll.path)) and
+                                       any(R.dominates(g_, tk) for g_ in gcs) for tk in takes)
+        ctx.check(ok_entry, "C08.e", "runner:collects-and-polls-before-every-lookup", R.loc(takes[0]) if takes else "%s:%d" % (R.file, R.line),
+                  "garbage collection and the removal/despawn poll dominate the lookup of the target's callback",
+                  "the runner can look its target up without having collected released entities and polled removals/despawns first "
+                  "(a despawn made earlier in the tree is then reacted to after a later event)")
         # ... and after the finished system was put back (or dropped): reactions polled here may target that system, and
         # dropping its callback may release signals whose despawns must be seen in this tree
         inserts = lib.call_blocks(R, lib.ends(A.names(prog)["storage_insert"]))
